@@ -1992,7 +1992,7 @@ func isPkgFunc(c *ast.CallExpr, path, name string) bool {
 // t.Add(d) / t.Sub(u) on an instant
 func timeMethod(c *ast.CallExpr) (string, bool) {
 	sel, ok := c.Fun.(*ast.SelectorExpr)
-	if !ok || (sel.Sel.Name != "Add" && sel.Sel.Name != "Sub") {
+	if !ok || (sel.Sel.Name != "Add" && sel.Sel.Name != "Sub" && sel.Sel.Name != "After" && sel.Sel.Name != "Before") {
 		return "", false
 	}
 	tv, ok := info.Types[sel.X]
@@ -2137,6 +2137,10 @@ func (t *ftr) expr(e ast.Expr) string {
 				case "EOF":
 					return fmt.Sprintf("EN %d", len(errNames)+4)
 				}
+			}
+			if pn, ok := info.Uses[id].(*types.PkgName); ok && pn.Imported().Path() == "github.com/goburrow/serial" && x.Sel.Name == "ErrTimeout" {
+				// the serial driver's "nothing arrived within the port timeout"
+				return fmt.Sprintf("EN %d", len(errNames)+5)
 			}
 		}
 		return unsupE("selector", e)
@@ -2331,6 +2335,12 @@ func (t *ftr) expr(e ast.Expr) string {
 			recv := x.Fun.(*ast.SelectorExpr).X
 			if m == "Add" {
 				return fmt.Sprintf("EBin OAdd (U 64) (%s) (%s)", t.expr(recv), t.expr(x.Args[0]))
+			}
+			if m == "After" {
+				return fmt.Sprintf("ECmp CGt (%s) (%s)", t.expr(recv), t.expr(x.Args[0]))
+			}
+			if m == "Before" {
+				return fmt.Sprintf("ECmp CLt (%s) (%s)", t.expr(recv), t.expr(x.Args[0]))
 			}
 			return fmt.Sprintf("EBin OSub (U 64) (%s) (%s)", t.expr(recv), t.expr(x.Args[0]))
 		}
